@@ -103,6 +103,7 @@ struct FamStats {
     scenarios_skipped: usize,
     executions: u64,
     replay_retries: u64,
+    nondeterministic_scenarios: usize,
     max_choice_points: usize,
     distinct: usize,
     nontrivial_scenarios: usize,
@@ -370,6 +371,9 @@ pub fn run_families(property: &str, tier: &str, fams: Vec<Family>, budget_s: f64
                             g.scenarios_done += 1;
                             g.executions += st.executions;
                             g.replay_retries += st.replay_retries;
+                            if st.nondeterministic {
+                                g.nondeterministic_scenarios += 1;
+                            }
                             g.max_choice_points = g.max_choice_points.max(st.max_choice_points);
                             g.distinct += outcomes.len();
                             if handler_execs && st.executions > 1 {
@@ -508,7 +512,7 @@ pub fn run_families(property: &str, tier: &str, fams: Vec<Family>, budget_s: f64
         st.wall_s = tf.elapsed().as_secs_f64();
         report.evaluations += st.executions;
         report.distinct_nontrivial += st.distinct;
-        if st.scenarios_capped > 0 || st.scenarios_skipped > 0 || fam.dev_bound.is_some() {
+        if st.scenarios_capped > 0 || st.scenarios_skipped > 0 || fam.dev_bound.is_some() || st.nondeterministic_scenarios > 0 {
             report.exhaustive = false;
         }
         report.families.push(json!({
@@ -520,6 +524,7 @@ pub fn run_families(property: &str, tier: &str, fams: Vec<Family>, budget_s: f64
             "nontrivial_scenarios": st.nontrivial_scenarios,
             "executions": st.executions,
             "replay_retries": st.replay_retries,
+            "nondeterministic_scenarios": st.nondeterministic_scenarios,
             "distinct_outcomes": st.distinct,
             "max_choice_points": st.max_choice_points,
             "deviation_bound": fam.dev_bound,
